@@ -31,7 +31,8 @@ def snapshot(model) -> dict:
               "outputs": [id(v) for v in g.outputs], "nodes": [id(n) for n in g], "inits": []}
         for key, v in g.initializers.items():
             t = v.const_value
-            d = {"key": key, "vid": id(v), "vname": v.name, "tid": id(t), "tcls": type(t).__name__}
+            d = {"key": key, "vid": id(v), "vname": v.name, "tid": id(t), "tcls": type(t).__name__,
+                 "vtype": str(v.type), "vshape": str(v.shape), "vmeta": sorted(v.metadata_props.items())}
             if t is not None:
                 # t.name is deliberately not part of the snapshot: serialisation (the snapshot's own
                 # included) syncs a tensor's name to its initializer's name, and the property speaks of
@@ -50,7 +51,18 @@ def snapshot(model) -> dict:
         proto = sha(ir.serde.serialize_model(model).SerializeToString(deterministic=True))
     except Exception as e:  # noqa: BLE001
         proto = f"ERR:{type(e).__name__}"
-    return {"graphs": graphs, "proto": proto}
+    # what is not an initializer must not move either: attribute tensors (identity), functions, model-level fields
+    attrs = []
+    for g in model.graphs():
+        for n in g:
+            for a in n.attributes.values():
+                if a.type == ir.AttributeType.TENSOR and not a.is_ref():
+                    attrs.append((n.name, a.name, id(a.value)))
+    misc = {"functions": [(str(k), id(f)) for k, f in model.functions.items()],
+            "opsets": sorted(model.graph.opset_imports.items()), "ir_version": model.ir_version,
+            "producer": [model.producer_name, model.producer_version, model.domain, model.model_version, model.doc_string],
+            "meta": sorted(model.metadata_props.items())}
+    return {"graphs": graphs, "proto": proto, "attrs": attrs, "misc": misc}
 
 
 def diff_snapshot(a: dict, b: dict) -> list[str]:
@@ -74,6 +86,15 @@ def diff_snapshot(a: dict, b: dict) -> list[str]:
                     out.append(f"graph {ga['name']}: initializer {da['key']!r}: {what} changed{shown}")
     if a["proto"] != b["proto"]:
         out.append("serialized model changed")
+    if [x[:2] for x in a.get("attrs", [])] != [x[:2] for x in b.get("attrs", [])] or a.get("attrs") != b.get("attrs"):
+        out.append("a node's tensor attribute was replaced (identity changed)")
+    if a.get("misc") != b.get("misc"):
+        ka = a.get("misc", {})
+        kb = b.get("misc", {})
+        for k in sorted(set(ka) | set(kb)):
+            if ka.get(k) != kb.get(k):
+                shown = "" if k == "functions" else f" ({ka.get(k)} -> {kb.get(k)})"
+                out.append(f"model-level {k} changed{shown}")
     return out
 
 
@@ -326,6 +347,29 @@ def run_save(recipe: dict, plan: dict | None, root: str, retry: bool = True) -> 
                 d = diff_snapshot(snap0, snapshot(model))
                 if d and not rec["violations"]:
                     rec["violations"].append({"class": "model-changed", "detail": ["after reading back"] + d[:5]})
+                # I5 — a second save of the same model elsewhere (fault-free runs only): state kept between calls must
+                # neither break the second result nor reach back into the first destination's files
+                if plan is None and not rec["violations"] and cfg.get("second_save", True):
+                    d2 = os.path.join(sandbox, "second")
+                    os.makedirs(d2, exist_ok=True)
+                    path2 = os.path.join(d2, "copy_" + cfg.get("file_name", "model.onnx"))
+                    fs3 = SimFS(sandbox, None, hide_fileno=cfg.get("backend") == "nofileno",
+                                clock_steps=cfg.get("clock") or DEFAULT_CLOCK)
+                    exc3 = None
+                    with fs3:
+                        try:
+                            torch_2_5.save_model_with_external_data(model, path2, verbose=bool(cfg.get("verbose")))
+                        except Exception as e:  # noqa: BLE001
+                            exc3 = e
+                    rec["second_save"] = "returned" if exc3 is None else f"raised {type(exc3).__name__}"
+                    if exc3 is not None:
+                        rec["violations"].append({"class": "second-save-fails", "detail": [f"{type(exc3).__name__}: {str(exc3)[:200]}"]})
+                    else:
+                        rec["violations"] += _roundtrip_violations(check_roundtrip(path2, model, expected), "second-save-bad-roundtrip")
+                        rec["violations"] += _roundtrip_violations(check_roundtrip(real_path, model, expected), "first-destination-damaged")
+                        d = diff_snapshot(snap0, snapshot(model))
+                        if d:
+                            rec["violations"].append({"class": "model-changed", "detail": ["after a second save"] + d[:5]})
             # I4 — bounded recovery: faults have stopped, one retry must succeed and round-trip
             if retry and faulted and outcome == "raised" and cfg.get("path_form") != "missingdir":
                 fs2 = SimFS(sandbox, None, hide_fileno=cfg.get("backend") == "nofileno",
@@ -406,5 +450,5 @@ def digest(rec: dict) -> str:
     from dsim.common import jdump
 
     keep = {k: rec.get(k) for k in ("outcome", "exc", "events", "fired", "missed", "notes", "violations",
-                                    "retry", "files", "sizes", "clock_reads", "stderr_writes")}
+                                    "retry", "second_save", "files", "sizes", "clock_reads", "stderr_writes")}
     return sha(jdump(keep).encode())
